@@ -1,6 +1,822 @@
-/- C11 - property theorems (stub: not built yet) -/
-import NotationModel.Model.C11
+/-
+C11 - Signing an OCI artifact signs exactly what was resolved and changes nothing else.
+Property theorems only; the model is in `Model/C11.lean`.
 
+Structure: heap lemmas (a write through an address beyond a prefix of the heap leaves the prefix alone),
+specifications of the pieces of `SignOCI` (`mergeLoop_spec`, `addUserMetadata_spec`, `resolve_spec`,
+`annotateAndPush_spec`), the per-call theorem `signOCI_spec` under the sequence invariant `Inv`, the closed form
+of a whole sequence `run_eq_spec` (induction over the call list, any length), `model_holds`, and the readable
+corollaries `signs_resolved_plus_metadata`, `refusals`, `frame` / `frame_heap`, `idempotent_history`,
+`pushed_annotations_exact`, `merge_order_irrelevant`.
+Well-formedness hypothesis (explicit, decidable): `wf i` - the keys of every UserMetadata map are pairwise
+different (true of any Go map; the harness builds the lists from Go maps).
+-/
+import NotationModel.Model.C11
+set_option linter.unusedSimpArgs false
 namespace NotationModel.C11
+
+theorem facts_merge_allocates_fresh_map : mergeCopies = true := by decide
+
+theorem look_put (k v k' : Text) : ∀ m : AnnMap, look k' (put k v m) = if k' = k then some v else look k' m := by
+  intro m
+  induction m with
+  | nil => simp [put, look]
+  | cons p r ih =>
+    obtain ⟨k1, v1⟩ := p
+    simp only [put]
+    by_cases h1 : k = k1
+    · subst h1
+      by_cases h2 : k' = k <;> simp [look, h2]
+    · simp only [h1, beq_iff_eq, if_false]
+      by_cases h2 : tlt k k1
+      · simp [h2, look]
+      · rw [if_neg h2]
+        simp only [look]
+        rw [ih]
+        by_cases h3 : k' = k1
+        · subst h3
+          have : ¬ k' = k := fun h => h1 h.symm
+          simp [this]
+        · simp [h3]
+
+/-! ### heap lemmas -/
+
+def validRef (h : Heap) : MapRef → Prop
+  | none => True
+  | some a => a < h.cells.length
+
+theorem prefix_getD {α} {l l' : List α} (hp : l <+: l') {a : Nat} (ha : a < l.length) (d : α) :
+    l'.getD a d = l.getD a d := by
+  obtain ⟨t, rfl⟩ := hp
+  simp [List.getD, List.getElem?_append_left ha]
+
+theorem read_of_prefix {h h' : Heap} (hp : h.cells <+: h'.cells) {r : MapRef} (hv : validRef h r) :
+    h'.read r = h.read r := by
+  cases r with
+  | none => rfl
+  | some a => exact prefix_getD hp hv []
+
+theorem validRef_of_prefix {h h' : Heap} (hp : h.cells <+: h'.cells) {r : MapRef} (hv : validRef h r) :
+    validRef h' r := by
+  cases r with
+  | none => trivial
+  | some a => exact Nat.lt_of_lt_of_le hv hp.length_le
+
+theorem alloc_cells (h : Heap) (m : AnnMap) : (h.alloc m).1.cells = h.cells ++ [m] := rfl
+theorem alloc_addr (h : Heap) (m : AnnMap) : (h.alloc m).2 = h.cells.length := rfl
+theorem alloc_prefix (h : Heap) (m : AnnMap) : h.cells <+: (h.alloc m).1.cells := ⟨[m], rfl⟩
+theorem alloc_read (h : Heap) (m : AnnMap) : (h.alloc m).1.read (some (h.alloc m).2) = m := by
+  simp [Heap.read, Heap.alloc, List.getD]
+
+theorem write_length (h : Heap) (a : Nat) (k v : Text) :
+    (h.write (some a) k v).cells.length = h.cells.length := by
+  simp [Heap.write]
+
+theorem write_read (h : Heap) (a : Nat) (k v : Text) (ha : a < h.cells.length) :
+    (h.write (some a) k v).read (some a) = put k v (h.read (some a)) := by
+  simp [Heap.write, Heap.read, List.getD, ha]
+
+/-- a write through an address beyond a prefix leaves the prefix alone -/
+theorem write_prefix (h : Heap) (a : Nat) (k v : Text) {l : List AnnMap} (hp : l <+: h.cells) (hl : l.length ≤ a) :
+    l <+: (h.write (some a) k v).cells := by
+  obtain ⟨t, ht⟩ := hp
+  simp only [Heap.write, ← ht]
+  rw [List.set_append_right _ _ hl]
+  exact ⟨_, rfl⟩
+
+
+/-! ### the metadata merge -/
+
+def collidesWith (m : AnnMap) (kv : Text × Text) : Bool := (look kv.1 m).isSome
+
+theorem any_collides_put (k v : Text) (m : AnnMap) : ∀ rest : AnnMap,
+    rest.any (fun kv => kv.1 == k) = false →
+    rest.any (collidesWith (put k v m)) = rest.any (collidesWith m) := by
+  intro rest
+  induction rest with
+  | nil => simp
+  | cons p r ih =>
+    intro h
+    simp only [List.any_cons, Bool.or_eq_false_iff] at h
+    simp only [List.any_cons, ih h.2]
+    have : ¬ p.1 = k := by simpa using h.1
+    simp [collidesWith, look_put, this]
+
+theorem merged_cons (m : AnnMap) (k v : Text) (rest : AnnMap) :
+    merged m ((k, v) :: rest) = merged (put k v m) rest := rfl
+
+theorem mergeLoop_length (r : MapRef) : ∀ (md : AnnMap) (h : Heap),
+    (mergeLoop h r md).1.cells.length = h.cells.length := by
+  intro md
+  induction md with
+  | nil => intro h; rfl
+  | cons p rest ih =>
+    intro h
+    obtain ⟨k, v⟩ := p
+    simp only [mergeLoop]
+    split
+    · rfl
+    · split
+      · rfl
+      · rw [ih]
+        cases r with
+        | none => rfl
+        | some a => exact write_length h a k v
+
+/-- what the merge loop does to a map of its own at address `a` -/
+theorem mergeLoop_spec (a : Nat) : ∀ (md : AnnMap) (h : Heap), a < h.cells.length → distinctKeys md = true →
+    (mergeLoop h (some a) md).2 =
+      (!(md.any (fun kv => isReserved kv.1)) && !(md.any (collidesWith (h.read (some a))))) ∧
+    (∀ l, l <+: h.cells → l.length ≤ a → l <+: (mergeLoop h (some a) md).1.cells) ∧
+    ((mergeLoop h (some a) md).2 = true →
+      (mergeLoop h (some a) md).1.read (some a) = merged (h.read (some a)) md) := by
+  intro md
+  induction md with
+  | nil => intro h _ _; exact ⟨by simp [mergeLoop], fun l hl _ => hl, fun _ => by simp [mergeLoop, merged]⟩
+  | cons p rest ih =>
+    intro h ha hd
+    obtain ⟨k, v⟩ := p
+    simp only [distinctKeys, Bool.and_eq_true, Bool.not_eq_true'] at hd
+    simp only [mergeLoop]
+    by_cases hr : isReserved k = true
+    · exact ⟨by simp [hr], fun l hl _ => by simpa [hr] using hl, by simp [hr]⟩
+    · by_cases hc : (look k (h.read (some a))).isSome = true
+      · exact ⟨by simp [hr, hc, collidesWith], fun l hl _ => by simpa [hr, hc] using hl, by simp [hr, hc]⟩
+      · have ha' : a < (h.write (some a) k v).cells.length := by rw [write_length]; exact ha
+        obtain ⟨h1, h2, h3⟩ := ih (h.write (some a) k v) ha' hd.2
+        simp only [hr, hc, if_false, Bool.false_eq_true]
+        rw [write_read h a k v ha] at h1 h3
+        refine ⟨?_, ?_, ?_⟩
+        · rw [h1, any_collides_put k v _ rest hd.1]
+          simp [hr, hc, collidesWith]
+        · intro l hl hla
+          exact h2 l (write_prefix h a k v hl hla) hla
+        · intro hok
+          rw [h3 hok, merged_cons]
+
+theorem addUserMetadata_spec (h : Heap) (ann : MapRef) (md : AnnMap) (hv : validRef h ann)
+    (hd : distinctKeys md = true) :
+    h.cells <+: (addUserMetadata h ann md).1.cells ∧
+    validRef (addUserMetadata h ann md).1 (addUserMetadata h ann md).2.1 ∧
+    (addUserMetadata h ann md).2.2 =
+      (!(md.any (fun kv => isReserved kv.1)) && !(md.any (collidesWith (h.read ann)))) ∧
+    ((addUserMetadata h ann md).2.2 = true →
+      (addUserMetadata h ann md).1.read (addUserMetadata h ann md).2.1 = merged (h.read ann) md) := by
+  unfold addUserMetadata
+  by_cases he : md.isEmpty = true
+  · have : md = [] := by simpa using he
+    subst this
+    simp [merged, hv]
+  · simp only [he, facts_merge_allocates_fresh_map, if_true, if_false, Bool.false_eq_true]
+    have ha : h.cells.length < (h.alloc (h.read ann)).1.cells.length := by simp [alloc_cells]
+    obtain ⟨h1, h2, h3⟩ := mergeLoop_spec h.cells.length md (h.alloc (h.read ann)).1 ha hd
+    have hrd : (h.alloc (h.read ann)).1.read (some h.cells.length) = h.read ann := alloc_read h _
+    rw [hrd] at h1 h3
+    refine ⟨?_, ?_, ?_, ?_⟩
+    · exact h2 _ (alloc_prefix h _) (Nat.le_refl _)
+    · show h.cells.length < _
+      rw [mergeLoop_length]
+      exact ha
+    · exact h1
+    · exact h3
+
+
+/-! ### Resolve -/
+
+def viewAnn (r : Repo) (arg : Arg) (m : AnnMap) : AnnMap :=
+  match arg with
+  | .tag => m
+  | _ => if r.plainByDigest then [] else m
+
+def resolvableArg (r : Repo) : Arg → Bool
+  | .tag | .digest => true
+  | .otherDigest => r.anyDigest
+  | _ => false
+
+theorem handOut_spec (r : Repo) (h : Heap) (hlen : 0 < h.cells.length) :
+    h.cells <+: (resolve.handOut r h).1.cells ∧ validRef (resolve.handOut r h).1 (resolve.handOut r h).2 ∧
+    (resolve.handOut r h).1.read (resolve.handOut r h).2 = h.read (some 0) := by
+  unfold resolve.handOut
+  by_cases ha : r.aliased = true
+  · simp [ha, env, validRef, hlen]
+  · simp only [ha, if_false, Bool.false_eq_true]
+    refine ⟨alloc_prefix h _, ?_, ?_⟩
+    · show h.cells.length < _
+      simp [alloc_cells]
+    · exact alloc_read h _
+
+theorem resolve_spec (r : Repo) (h : Heap) (arg : Arg) (hlen : 0 < h.cells.length) :
+    match resolve r h arg with
+    | none => resolvableArg r arg = false
+    | some (h1, res) => resolvableArg r arg = true ∧ h.cells <+: h1.cells ∧ validRef h1 res ∧
+        h1.read res = viewAnn r arg (h.read (some 0)) := by
+  have ho := handOut_spec r h hlen
+  cases arg
+  · -- tag
+    simp only [resolve, resolvableArg, viewAnn]
+    exact ⟨trivial, ho⟩
+  · -- digest
+    simp only [resolve, resolvableArg, viewAnn]
+    by_cases hp : r.plainByDigest = true
+    · simp [hp, validRef, Heap.read]
+    · simp only [hp, if_false, Bool.false_eq_true]
+      exact ⟨trivial, ho⟩
+  · -- otherDigest
+    simp only [resolve, resolvableArg, viewAnn]
+    by_cases hany : r.anyDigest = true
+    · simp only [hany, if_true]
+      by_cases hp : r.plainByDigest = true
+      · simp [hp, validRef, Heap.read]
+      · simp only [hp, if_false, Bool.false_eq_true]
+        exact ⟨trivial, ho⟩
+    · simp [hany]
+  · simp [resolve, resolvableArg]
+  · simp [resolve, resolvableArg]
+
+/-! ### annotations and push -/
+
+theorem annotateAndPush_spec (i : Input) (w : World) (ra : Option Arg) (sg : Option AnnMap) (resolved : MapRef)
+    (hv : validRef w.heap resolved) :
+    w.heap.cells <+: (annotateAndPush i w { resolveArg := ra, signed := sg } resolved).1.heap.cells ∧
+    (annotateAndPush i w { resolveArg := ra, signed := sg } resolved).1.handed = w.handed ∧
+    (annotateAndPush i w { resolveArg := ra, signed := sg } resolved).1.sigCount =
+      w.sigCount + (if i.signer.kind == .ok && i.repo.push != .fails then 1 else 0) ∧
+    (annotateAndPush i w { resolveArg := ra, signed := sg } resolved).2 =
+      { resolveArg := ra, signed := sg,
+        ok := i.signer.kind == .ok && i.repo.push == .ok,
+        subject := if i.signer.kind == .ok then some (w.heap.read resolved) else none,
+        pushAnn := if i.signer.kind == .ok then some (expectedPushAnn i) else none,
+        returnedResolved := i.signer.kind == .ok && i.repo.push != .fails } := by
+  have hpre := alloc_prefix w.heap i.signer.pluginAnn
+  have hlen : w.heap.cells.length < (w.heap.alloc i.signer.pluginAnn).1.cells.length := by simp [alloc_cells]
+  have hw1 := write_prefix (w.heap.alloc i.signer.pluginAnn).1 w.heap.cells.length Facts.c11ThumbprintKey
+    (jsonArray i.signer.thumbs) hpre (Nat.le_refl _)
+  have hlen2 : w.heap.cells.length <
+      ((w.heap.alloc i.signer.pluginAnn).1.write (some w.heap.cells.length) Facts.c11ThumbprintKey (jsonArray i.signer.thumbs)).cells.length := by
+    rw [write_length]; exact hlen
+  have hw2 := write_prefix _ w.heap.cells.length Facts.c11CreatedKey (rfc3339 i.signer.time) hw1 (Nat.le_refl _)
+  have hread : (((w.heap.alloc i.signer.pluginAnn).1.write (some w.heap.cells.length) Facts.c11ThumbprintKey
+      (jsonArray i.signer.thumbs)).write (some w.heap.cells.length) Facts.c11CreatedKey (rfc3339 i.signer.time)).read
+      (some w.heap.cells.length) = expectedPushAnn i := by
+    rw [write_read _ _ _ _ hlen2, write_read _ _ _ _ hlen]
+    have := alloc_read w.heap i.signer.pluginAnn
+    rw [alloc_addr] at this
+    rw [this]
+    rfl
+  have hres := read_of_prefix (h := w.heap) hw2 hv
+  unfold annotateAndPush
+  cases hk : i.signer.kind
+  · -- ok
+    simp only [alloc_addr]
+    cases hp : i.repo.push <;> simp [hw2, hread, hres]
+  · simp
+  · simp
+  · simp [alloc_addr, hw1]
+
+
+/-! ### one call -/
+
+/-- the invariant of a sequence: the cells set up at the start are a prefix of the heap (so they
+still have their contents), and every annotation map handed out still reads as it did then -/
+def Inv (i : Input) (w : World) : Prop :=
+  initCells i <+: w.heap.cells ∧ ∀ p ∈ w.handed, validRef w.heap p.1 ∧ w.heap.read p.1 = p.2
+
+theorem Inv_init (i : Input) : Inv i (initWorld i) :=
+  ⟨List.prefix_refl _, by intro p hp; simp [initWorld] at hp⟩
+
+theorem Inv_ext {i : Input} {w : World} (hinv : Inv i w) {h' : Heap} (hp : w.heap.cells <+: h'.cells) (n : Nat) :
+    Inv i { heap := h', handed := w.handed, sigCount := n } := by
+  refine ⟨List.IsPrefix.trans hinv.1 hp, ?_⟩
+  intro p hpm
+  obtain ⟨hv, hr⟩ := hinv.2 p hpm
+  exact ⟨validRef_of_prefix hp hv, by rw [read_of_prefix hp hv, hr]⟩
+
+theorem Inv_hand {i : Input} {w : World} (hinv : Inv i w) {r : MapRef} (hv : validRef w.heap r) :
+    Inv i { heap := w.heap, handed := w.handed ++ [(r, w.heap.read r)], sigCount := w.sigCount } := by
+  refine ⟨hinv.1, ?_⟩
+  intro p hpm
+  simp only [List.mem_append, List.mem_singleton] at hpm
+  rcases hpm with hpm | rfl
+  · exact hinv.2 p hpm
+  · exact ⟨hv, rfl⟩
+
+theorem Inv_repo {i : Input} {w : World} (hinv : Inv i w) : w.heap.read (some 0) = i.art.ann := by
+  have := prefix_getD hinv.1 (a := 0) (by simp [initCells]) ([] : AnnMap)
+  simpa [Heap.read, initCells] using this
+
+theorem Inv_nonempty {i : Input} {w : World} (hinv : Inv i w) : 0 < w.heap.cells.length :=
+  Nat.lt_of_lt_of_le (by simp [initCells]) hinv.1.length_le
+
+theorem resolvable_eq (i : Input) (c : Call) : resolvable i c = resolvableArg i.repo (refArg c.ref) := by
+  unfold resolvable resolvableArg
+  cases refArg c.ref <;> rfl
+
+theorem resolvedAnn_eq (i : Input) (c : Call) : resolvedAnn i c = viewAnn i.repo (refArg c.ref) i.art.ann := by
+  unfold resolvedAnn viewAnn
+  cases refArg c.ref <;> rfl
+
+theorem collides_eq (i : Input) (c : Call) : collides i c = c.md.any (collidesWith (resolvedAnn i c)) := rfl
+
+/-- the closed form of what a call shows: a function of the input, the call and the number of signatures before it -/
+def expectedTrace (i : Input) (c : Call) : Trace :=
+  { ok := expectedOk i c,
+    resolveArg := if optsValid c.opts then some (refArg c.ref) else none,
+    signed := if reachesSigner i c then some (merged (resolvedAnn i c) c.md) else none,
+    subject := if reachesPush i c then some (resolvedAnn i c) else none,
+    pushAnn := if reachesPush i c then some (expectedPushAnn i) else none,
+    returnedResolved := pushes i c }
+
+theorem signOCI_spec (i : Input) (w : World) (c : Call) (hinv : Inv i w) (hd : distinctKeys c.md = true) :
+    Inv i (signOCI i w c).1 ∧
+    w.heap.cells <+: (signOCI i w c).1.heap.cells ∧
+    (signOCI i w c).1.sigCount = w.sigCount + (if pushes i c then 1 else 0) ∧
+    (signOCI i w c).2 = expectedTrace i c := by
+  unfold signOCI
+  by_cases hov : optsValid c.opts = true
+  · simp only [hov, Bool.not_true, Bool.false_eq_true, if_false]
+    have hres := resolve_spec i.repo w.heap (refArg c.ref) (Inv_nonempty hinv)
+    cases hr : resolve i.repo w.heap (refArg c.ref) with
+    | none =>
+      rw [hr] at hres
+      simp only [] at hres
+      refine ⟨hinv, List.prefix_refl _, ?_, ?_⟩
+      · simp [pushes, reachesPush, reachesSigner, resolvable_eq, hres]
+      · simp [expectedTrace, expectedOk, pushes, reachesPush, reachesSigner, resolvable_eq, hres, hov]
+    | some pr =>
+      obtain ⟨h1, resolved⟩ := pr
+      rw [hr] at hres
+      simp only [] at hres
+      obtain ⟨hrs, hp1, hv1, hrd1⟩ := hres
+      rw [Inv_repo hinv, ← resolvedAnn_eq] at hrd1
+      have hinv1 : Inv i { heap := h1, handed := w.handed ++ [(resolved, h1.read resolved)], sigCount := w.sigCount } :=
+        Inv_hand (w := { heap := h1, handed := w.handed, sigCount := w.sigCount }) (Inv_ext hinv hp1 _) hv1
+      simp only []
+      by_cases harg : refArg c.ref = .otherDigest
+      · simp only [harg, beq_self_eq_true, if_true]
+        refine ⟨hinv1, hp1, ?_, ?_⟩
+        · simp [pushes, reachesPush, reachesSigner, refused, digestMismatch, harg]
+        · simp [expectedTrace, expectedOk, pushes, reachesPush, reachesSigner, refused, digestMismatch, harg, hov]
+      · have hne : (refArg c.ref == Arg.otherDigest) = false := by simpa using harg
+        simp only [hne, Bool.false_eq_true, if_false]
+        obtain ⟨hp2, hv2, hok, hmerged⟩ := addUserMetadata_spec h1 resolved c.md hv1 hd
+        rw [hrd1] at hok hmerged
+        generalize haum : addUserMetadata h1 resolved c.md = res at hp2 hv2 hok hmerged
+        obtain ⟨h2, toSign, ok⟩ := res
+        simp only [] at hp2 hv2 hok hmerged ⊢
+        have hinv2 : Inv i { heap := h2, handed := w.handed ++ [(resolved, h1.read resolved)], sigCount := w.sigCount } :=
+          Inv_ext hinv1 hp2 _
+        have hrefused : refused i c = !ok := by
+          simp [refused, digestMismatch, hne, hasReserved, collides_eq, hok]
+        cases hokv : ok with
+        | false =>
+          simp only [Bool.not_false, if_true]
+          refine ⟨hinv2, List.IsPrefix.trans hp1 hp2, ?_, ?_⟩
+          · simp [pushes, reachesPush, reachesSigner, hrefused, hokv]
+          · simp [expectedTrace, expectedOk, pushes, reachesPush, reachesSigner, hrefused, hokv, hov]
+        | true =>
+          simp only [Bool.not_true, Bool.false_eq_true, if_false]
+          have hv2' : validRef h2 resolved := validRef_of_prefix hp2 hv1
+          obtain ⟨hp3, hh3, hs3, ht3⟩ := annotateAndPush_spec i
+            { heap := h2, handed := w.handed ++ [(resolved, h1.read resolved)], sigCount := w.sigCount }
+            (some (refArg c.ref)) (some (h2.read toSign)) resolved hv2'
+          refine ⟨?_, ?_, ?_, ?_⟩
+          · have := Inv_ext hinv2 hp3 (annotateAndPush i
+              { heap := h2, handed := w.handed ++ [(resolved, h1.read resolved)], sigCount := w.sigCount }
+              { resolveArg := some (refArg c.ref), signed := some (h2.read toSign) } resolved).1.sigCount
+            rw [← hh3] at this
+            exact this
+          · exact List.IsPrefix.trans hp1 (List.IsPrefix.trans hp2 hp3)
+          · rw [hs3]
+            simp [pushes, reachesPush, reachesSigner, hrefused, hokv, hov, resolvable_eq, hrs]
+          · rw [ht3, hmerged (by rw [hokv]), read_of_prefix hp2 hv1, hrd1]
+            simp [expectedTrace, expectedOk, pushes, reachesPush, reachesSigner, hrefused, hokv, hov, resolvable_eq, hrs]
+  · have hov' : optsValid c.opts = false := by simpa using hov
+    simp only [hov', Bool.not_false, if_true]
+    refine ⟨hinv, List.prefix_refl _, ?_, ?_⟩
+    · simp [pushes, reachesPush, reachesSigner, hov']
+    · simp [expectedTrace, expectedOk, pushes, reachesPush, reachesSigner, hov']
+
+
+/-! ### sequences -/
+
+def expectedObs (i : Input) (c : Call) (before : Nat) : CallObs :=
+  { ok := expectedOk i c,
+    resolveArg := if optsValid c.opts then some (refArg c.ref) else none,
+    signed := if reachesSigner i c then some (mkDesc i.art (merged (resolvedAnn i c) c.md)) else none,
+    subject := if reachesPush i c then some (mkDesc i.art (resolvedAnn i c)) else none,
+    pushAnn := if reachesPush i c then some (expectedPushAnn i) else none,
+    returned := if pushes i c then .resolved else .zero,
+    repoViewSame := true, handedSame := true, optsSame := true,
+    sigCount := before + (if pushes i c then 1 else 0) }
+
+/-- the whole sequence in closed form -/
+def specCalls (i : Input) : List Call → Nat → List CallObs
+  | [], _ => []
+  | c :: cs, n => expectedObs i c n :: specCalls i cs (n + (if pushes i c then 1 else 0))
+
+theorem observe_of_Inv (i : Input) (w : World) (t : Trace) (hinv : Inv i w) :
+    observe i w t =
+      { ok := t.ok, resolveArg := t.resolveArg, signed := t.signed.map (mkDesc i.art),
+        subject := t.subject.map (mkDesc i.art), pushAnn := t.pushAnn,
+        returned := if t.returnedResolved then .resolved else .zero,
+        repoViewSame := true, handedSame := true, optsSame := true, sigCount := w.sigCount } := by
+  have h0 : (w.heap.read (some env.repoAnn) == i.art.ann) = true := by
+    simp [env, Inv_repo hinv]
+  have h1 : (w.handed.all fun x => match x with | (r, snap) => w.heap.read r == snap) = true := by
+    rw [List.all_eq_true]
+    intro p hp
+    obtain ⟨r, snap⟩ := p
+    simpa using (hinv.2 _ hp).2
+  have h2 : (w.heap.read (some env.cfg) == i.pluginConfig) = true := by
+    have := prefix_getD hinv.1 (a := 1) (by simp [initCells]) ([] : AnnMap)
+    simp [Heap.read, initCells, env] at this ⊢
+    exact this
+  have h3 : ((w.heap.cells.drop env.metaBase).take i.calls.length == i.calls.map (·.md)) = true := by
+    obtain ⟨t, ht⟩ := hinv.1
+    simp [← ht, initCells, env]
+  simp only [observe, h0, h1, h2, h3, Bool.and_self]
+
+theorem runCalls_spec (i : Input) : ∀ (cs : List Call) (w : World), Inv i w →
+    (cs.all (fun c => distinctKeys c.md)) = true → runCalls i w cs = specCalls i cs w.sigCount := by
+  intro cs
+  induction cs with
+  | nil => intro w _ _; rfl
+  | cons c cs ih =>
+    intro w hinv hwf
+    simp only [List.all_cons, Bool.and_eq_true] at hwf
+    obtain ⟨hinv', _, hs, ht⟩ := signOCI_spec i w c hinv hwf.1
+    simp only [runCalls, specCalls]
+    rw [ih _ hinv' hwf.2, observe_of_Inv i _ _ hinv', hs, ht]
+    simp only [expectedTrace, expectedObs]
+    congr 2
+    · by_cases h : reachesSigner i c <;> simp [h]
+    · by_cases h : reachesPush i c <;> simp [h]
+
+/-- **history independence**: what each call of a sequence shows is a function of the input, that call and the
+number of signatures pushed before it - nothing an earlier call did to maps can be seen by a later one. -/
+theorem run_eq_spec (i : Input) (hwf : wf i = true) : run i = { calls := specCalls i i.calls 0 } := by
+  unfold run
+  rw [runCalls_spec i i.calls (initWorld i) (Inv_init i) hwf]
+  rfl
+
+
+/-! ### the property -/
+
+def allTrue : CallVerdict := ⟨true, true, true, true, true, true, true, true⟩
+
+theorem callVerdict_expected (i : Input) (c : Call) (n : Nat) :
+    callVerdict i c n (expectedObs i c n) = allTrue := by
+  cases ha : optsValid c.opts <;> cases hb : resolvable i c <;> cases hd : refused i c <;>
+    cases he : (i.signer.kind == SignerKind.ok) <;> cases hp : i.repo.push <;>
+    simp [allTrue, callVerdict, expectedObs, expectedOk, pushes, reachesPush, reachesSigner, ha, hb, hd, he, hp]
+
+theorem specCalls_length (i : Input) : ∀ (cs : List Call) (n : Nat), (specCalls i cs n).length = cs.length := by
+  intro cs
+  induction cs with
+  | nil => intro n; rfl
+  | cons c cs ih => intro n; simp [specCalls, ih]
+
+theorem allCalls_spec (i : Input) (f : CallVerdict → Bool)
+    (hf : f allTrue = true) :
+    ∀ (cs : List Call) (n : Nat), allCalls i f cs n (specCalls i cs n) = true := by
+  intro cs
+  induction cs with
+  | nil => intro n; rfl
+  | cons c cs ih =>
+    intro n
+    simp only [specCalls, allCalls, callVerdict_expected, hf, Bool.true_and]
+    exact ih _
+
+/-- **C11, the whole property**: every clause of `Holds` is true of the model's behaviour, for every repository
+behaviour, artifact, signer, option maps and every sequence of calls of any length (hypothesis: the keys of each
+UserMetadata map are pairwise different, as in any Go map; the harness emits maps). -/
+theorem model_holds (i : Input) (hwf : wf i = true) : Holds i (run i) = true := by
+  rw [run_eq_spec i hwf]
+  have h1 := allCalls_spec i (·.signsResolvedPlusMetadata) rfl i.calls 0
+  have h2 := allCalls_spec i (·.subjectIsResolved) rfl i.calls 0
+  have h3 := allCalls_spec i (·.pushedAnnotationsExact) rfl i.calls 0
+  have h4 := allCalls_spec i (·.refusals) rfl i.calls 0
+  have h5 := allCalls_spec i (·.frame) rfl i.calls 0
+  have h6 := allCalls_spec i (·.oneSignature) rfl i.calls 0
+  have h7 := allCalls_spec i (·.succeedsIndependentOfHistory) rfl i.calls 0
+  have h8 := allCalls_spec i (·.resolveAsked) rfl i.calls 0
+  simp [Holds, clauses, Clauses.holds, specCalls_length, hwf, h1, h2, h3, h4, h5, h6, h7, h8]
+
+
+/-! ### readable corollaries -/
+
+/-- signatures pushed by the first `j` calls -/
+def sigsBefore (i : Input) (cs : List Call) (j : Nat) : Nat := ((cs.take j).filter (pushes i)).length
+
+theorem specCalls_get (i : Input) : ∀ (cs : List Call) (n j : Nat),
+    (specCalls i cs n)[j]? = (cs[j]?).map (fun c => expectedObs i c (n + sigsBefore i cs j)) := by
+  intro cs
+  induction cs with
+  | nil => intro n j; simp [specCalls]
+  | cons c cs ih =>
+    intro n j
+    cases j with
+    | zero => simp [specCalls, sigsBefore]
+    | succ j =>
+      simp only [specCalls, List.getElem?_cons_succ, ih]
+      cases cs[j]? with
+      | none => rfl
+      | some c' =>
+        simp only [Option.map_some, sigsBefore, List.take_succ_cons, List.filter_cons]
+        by_cases hp : pushes i c = true
+        · simp [hp]; congr 1; omega
+        · simp [hp]
+
+/-- the observation of the `j`-th call of any sequence, in closed form -/
+theorem call_obs (i : Input) (hwf : wf i = true) {j : Nat} {c : Call} {o : CallObs}
+    (hc : i.calls[j]? = some c) (ho : (run i).calls[j]? = some o) :
+    o = expectedObs i c (sigsBefore i i.calls j) := by
+  rw [run_eq_spec i hwf] at ho
+  simp only [specCalls_get, hc, Option.map_some, Nat.zero_add] at ho
+  exact (Option.some.inj ho).symm
+
+theorem look_none_of_not_any (k : Text) : ∀ m : AnnMap, m.any (fun kv => kv.1 == k) = false → look k m = none := by
+  intro m
+  induction m with
+  | nil => intro _; rfl
+  | cons p r ih =>
+    intro h
+    simp only [List.any_cons, Bool.or_eq_false_iff] at h
+    have : ¬ k = p.1 := by
+      have := h.1
+      intro hk
+      simp [hk] at this
+    simp [look, this, ih h.2]
+
+/-- the merged map, read key by key: the metadata's value where the metadata has the key, the resolved
+descriptor's otherwise -/
+theorem look_merged (k : Text) : ∀ (md base : AnnMap), distinctKeys md = true →
+    look k (merged base md) = (match look k md with | some v => some v | none => look k base) := by
+  intro md
+  induction md with
+  | nil => intro base _; simp [merged, look]
+  | cons p rest ih =>
+    intro base hd
+    obtain ⟨k1, v1⟩ := p
+    simp only [distinctKeys, Bool.and_eq_true, Bool.not_eq_true'] at hd
+    rw [merged_cons, ih _ hd.2, look_put]
+    by_cases hk : k = k1
+    · subst hk
+      simp [look, look_none_of_not_any k rest hd.1]
+    · simp [look, hk]
+
+/-- **signs exactly what was resolved plus the metadata** - at any position of any sequence: the descriptor
+handed to the signer is the resolved descriptor (media type, digest, size) whose annotations are the resolved
+annotations + user metadata; the subject pushed is the resolved descriptor itself (without the metadata). -/
+theorem signs_resolved_plus_metadata (i : Input) (hwf : wf i = true) {j : Nat} {c : Call} {o : CallObs}
+    (hc : i.calls[j]? = some c) (ho : (run i).calls[j]? = some o) :
+    (∀ d, o.signed = some d → d = mkDesc i.art (merged (resolvedAnn i c) c.md)) ∧
+    (∀ s, o.subject = some s → s = mkDesc i.art (resolvedAnn i c)) ∧
+    (o.ok = true → o.signed.isSome = true ∧ o.subject.isSome = true ∧ o.returned = .resolved) := by
+  rw [call_obs i hwf hc ho]
+  refine ⟨?_, ?_, ?_⟩
+  · intro d hdd
+    by_cases h : reachesSigner i c = true <;> simp [expectedObs, h] at hdd
+    exact hdd.symm
+  · intro s hs
+    by_cases h : reachesPush i c = true <;> simp [expectedObs, h] at hs
+    exact hs.symm
+  · intro hok
+    simp only [expectedObs, expectedOk, Bool.and_eq_true] at hok
+    have hrs : reachesSigner i c = true := by
+      have := hok.1
+      simp only [reachesPush, Bool.and_eq_true] at this
+      exact this.1
+    have hp : pushes i c = true := by
+      simp only [pushes, hok.1, Bool.true_and]
+      have := hok.2
+      cases hpk : i.repo.push <;> simp [hpk] at this ⊢
+    simp [expectedObs, hrs, hok.1, hp]
+
+/-- **refusals**: metadata under the reserved prefix, metadata that would overwrite an annotation of the artifact
+and a digest reference resolving to another digest each end in an error; the signer is not called, nothing is
+pushed, the signature count stays. -/
+theorem refusals (i : Input) (hwf : wf i = true) {j : Nat} {c : Call} {o : CallObs}
+    (hc : i.calls[j]? = some c) (ho : (run i).calls[j]? = some o)
+    (h : hasReserved c = true ∨ collides i c = true ∨ digestMismatch c = true) :
+    o.ok = false ∧ o.signed = none ∧ o.subject = none ∧ o.pushAnn = none ∧ o.returned = .zero ∧
+    o.sigCount = sigsBefore i i.calls j := by
+  have hr : refused i c = true := by
+    rcases h with h | h | h <;> simp [refused, h]
+  rw [call_obs i hwf hc ho]
+  simp [expectedObs, expectedOk, pushes, reachesPush, reachesSigner, hr]
+
+/-- **frame, as observed**: after every call of every sequence - successful or not - the repository resolves the
+artifact exactly as before the first call, every descriptor it handed out is unchanged, and so are the caller's
+UserMetadata and PluginConfig maps; the signature count grows by one exactly when the call pushed. -/
+theorem frame (i : Input) (hwf : wf i = true) {j : Nat} {c : Call} {o : CallObs}
+    (hc : i.calls[j]? = some c) (ho : (run i).calls[j]? = some o) :
+    o.repoViewSame = true ∧ o.handedSame = true ∧ o.optsSame = true ∧
+    o.sigCount = sigsBefore i i.calls j + (if pushes i c then 1 else 0) := by
+  rw [call_obs i hwf hc ho]
+  simp [expectedObs]
+
+/-- **frame, on the heap**: a call leaves every map object that existed before it with exactly the contents it
+had - the repository's, the caller's, whatever else - because the metadata merge and the annotation generation
+write only into cells they allocated (this is where `facts_merge_allocates_fresh_map` is used); the one other
+effect is at most one more signature. Holds from any state reachable in a sequence. -/
+theorem frame_heap (i : Input) (w : World) (c : Call) (hinv : Inv i w) (hd : distinctKeys c.md = true) :
+    w.heap.cells <+: (signOCI i w c).1.heap.cells ∧
+    (∀ r, validRef w.heap r → (signOCI i w c).1.heap.read r = w.heap.read r) ∧
+    (signOCI i w c).1.sigCount = w.sigCount + (if pushes i c then 1 else 0) := by
+  obtain ⟨_, hp, hs, _⟩ := signOCI_spec i w c hinv hd
+  exact ⟨hp, fun r hv => read_of_prefix hp hv, hs⟩
+
+/-- **idempotent history**: any number of signing calls with the same reference and options, where the call
+succeeds in the first place, succeeds every time, and the `j`-th of them leaves `j+1` signatures. -/
+theorem idempotent_history (i : Input) (hwf : wf i = true) (c : Call) (n : Nat)
+    (hcalls : i.calls = List.replicate n c) (hok : expectedOk i c = true) :
+    (run i).calls.length = n ∧
+    ∀ j o, (run i).calls[j]? = some o → o.ok = true ∧ o.sigCount = j + 1 := by
+  have hp : pushes i c = true := by
+    simp only [expectedOk, Bool.and_eq_true] at hok
+    simp only [pushes, hok.1, Bool.true_and]
+    have := hok.2
+    cases hpk : i.repo.push <;> simp [hpk] at this ⊢
+  refine ⟨by rw [run_eq_spec i hwf]; simp [specCalls_length, hcalls], ?_⟩
+  intro j o ho
+  have hj : j < n := by
+    rw [run_eq_spec i hwf] at ho
+    have := (List.getElem?_eq_some_iff.1 ho).1
+    simpa [specCalls_length, hcalls] using this
+  have hc : i.calls[j]? = some c := by simp [hcalls, hj]
+  rw [call_obs i hwf hc ho]
+  have hsb : sigsBefore i i.calls j = j := by
+    simp only [sigsBefore, hcalls, List.take_replicate]
+    rw [List.filter_eq_self.2]
+    · simp; omega
+    · intro a ha
+      rw [(List.mem_replicate.1 ha).2]; exact hp
+  simp [expectedObs, hok, hp, hsb]
+
+/-- whether a call succeeds does not depend on its position or on what was signed before -/
+theorem success_independent_of_history (i : Input) (hwf : wf i = true) {j : Nat} {c : Call} {o : CallObs}
+    (hc : i.calls[j]? = some c) (ho : (run i).calls[j]? = some o) : o.ok = expectedOk i c := by
+  rw [call_obs i hwf hc ho]; rfl
+
+theorem facts_annotation_keys :
+    Facts.c11ThumbprintKey ≠ Facts.c11CreatedKey ∧ isReserved Facts.c11ThumbprintKey = true ∧
+    isReserved Facts.c11CreatedKey = false := by decide
+
+/-- **the pushed annotations, exactly**: the plugin's annotations with the thumbprint list (JSON array of the
+SHA-256 hex of each chain certificate, in chain order) and `created` (signing time, RFC 3339, UTC) written over
+them - nothing else. -/
+theorem pushed_annotations_exact (i : Input) (hwf : wf i = true) {j : Nat} {c : Call} {o : CallObs}
+    (hc : i.calls[j]? = some c) (ho : (run i).calls[j]? = some o) (a : AnnMap) (ha : o.pushAnn = some a) :
+    a = expectedPushAnn i ∧
+    look Facts.c11ThumbprintKey a = some (jsonArray i.signer.thumbs) ∧
+    look Facts.c11CreatedKey a = some (rfc3339 i.signer.time) ∧
+    ∀ k, k ≠ Facts.c11ThumbprintKey → k ≠ Facts.c11CreatedKey → look k a = look k i.signer.pluginAnn := by
+  rw [call_obs i hwf hc ho] at ha
+  have hae : a = expectedPushAnn i := by
+    by_cases h : reachesPush i c = true <;> simp [expectedObs, h] at ha
+    exact ha.symm
+  subst hae
+  refine ⟨rfl, ?_, ?_, ?_⟩
+  · simp [expectedPushAnn, look_put, facts_annotation_keys.1]
+  · simp [expectedPushAnn, look_put]
+  · intro k h1 h2
+    simp [expectedPushAnn, look_put, h1, h2]
+
+
+/-! ### Go's random map iteration order does not matter -/
+
+theorem mem_of_look {k v : Text} : ∀ {m : AnnMap}, look k m = some v → (k, v) ∈ m := by
+  intro m
+  induction m with
+  | nil => intro h; simp [look] at h
+  | cons p r ih =>
+    obtain ⟨k1, v1⟩ := p
+    intro h
+    by_cases hk : k = k1
+    · subst hk
+      simp [look] at h
+      simp [h]
+    · simp [look, hk] at h
+      exact List.mem_cons_of_mem _ (ih h)
+
+theorem look_of_mem {k v : Text} : ∀ {m : AnnMap}, distinctKeys m = true → (k, v) ∈ m → look k m = some v := by
+  intro m
+  induction m with
+  | nil => intro _ h; simp at h
+  | cons p r ih =>
+    obtain ⟨k1, v1⟩ := p
+    intro hd h
+    simp only [distinctKeys, Bool.and_eq_true, Bool.not_eq_true'] at hd
+    rcases List.mem_cons.1 h with hm | hm
+    · injection hm with h1 h2
+      subst h1; subst h2
+      simp [look]
+    · have hk : ¬ k = k1 := by
+        intro hk
+        subst hk
+        have hn := look_none_of_not_any k r hd.1
+        rw [ih hd.2 hm] at hn
+        simp at hn
+      simp [look, hk, ih hd.2 hm]
+
+theorem look_perm {m m' : AnnMap} (hp : m.Perm m') (hd : distinctKeys m = true) (hd' : distinctKeys m' = true)
+    (k : Text) : look k m = look k m' := by
+  cases h : look k m with
+  | some v => exact (look_of_mem hd' (hp.mem_iff.1 (mem_of_look h))).symm
+  | none =>
+    cases h' : look k m' with
+    | none => rfl
+    | some v =>
+      have hs := look_of_mem hd (hp.mem_iff.2 (mem_of_look h'))
+      rw [h] at hs
+      simp at hs
+
+/-- `addUserMetadataToDescriptor` ranges over a Go map, i.e. in arbitrary order. For any two orders of the same
+metadata the merge succeeds or fails alike and, when it succeeds, yields the same map (read key by key). -/
+theorem merge_order_irrelevant (h : Heap) (ann : MapRef) (md md' : AnnMap) (hv : validRef h ann)
+    (hp : md.Perm md') (hd : distinctKeys md = true) (hd' : distinctKeys md' = true) :
+    (addUserMetadata h ann md).2.2 = (addUserMetadata h ann md').2.2 ∧
+    ((addUserMetadata h ann md).2.2 = true → ∀ k,
+      look k ((addUserMetadata h ann md).1.read (addUserMetadata h ann md).2.1) =
+      look k ((addUserMetadata h ann md').1.read (addUserMetadata h ann md').2.1)) := by
+  obtain ⟨_, _, hok, hm⟩ := addUserMetadata_spec h ann md hv hd
+  obtain ⟨_, _, hok', hm'⟩ := addUserMetadata_spec h ann md' hv hd'
+  have hsame : (addUserMetadata h ann md).2.2 = (addUserMetadata h ann md').2.2 := by
+    rw [hok, hok', hp.any_eq, hp.any_eq]
+  refine ⟨hsame, ?_⟩
+  intro hokt k
+  rw [hm hokt, hm' (hsame ▸ hokt), look_merged k md _ hd, look_merged k md' _ hd', look_perm hp hd hd' k]
+
+/-! ### the ties to the Go source (regenerated on every run) -/
+
+theorem facts_reserved_prefixes :
+    Facts.c11ReservedPrefixes = [['i', 'o', '.', 'c', 'n', 'c', 'f', '.', 'n', 'o', 't', 'a', 'r', 'y']] := by decide
+
+/-- the signer gets the merged descriptor, the push gets the one `Resolve` returned, and they are different variables -/
+theorem facts_dataflow :
+    Facts.c11MergeInput = Facts.c11ResolveVar ∧ Facts.c11SignerDescArg = Facts.c11MergeOutput ∧
+    Facts.c11PushSubjectArg = Facts.c11ResolveVar ∧ Facts.c11MergeOutput ≠ Facts.c11ResolveVar := by decide
+
+theorem facts_generated_annotations :
+    Facts.c11GeneratedKeys = ["envelope.AnnotationX509ChainThumbprint", "ocispec.AnnotationCreated"] ∧
+    Facts.c11ThumbprintHash = "sha256.Sum256(cert.Raw)" ∧ Facts.c11CreatedLayout = "time.RFC3339" ∧
+    Facts.c11SigningTimeIsUTC = true := by decide
+
+theorem facts_merge_loop : Facts.c11MergeLoopWrites = 1 ∧ Facts.c11MergeDescByValue = true := by decide
+
+/-- the merge loop never writes through a nil map: a non-empty metadata gives the descriptor a map of its own -/
+theorem write_target_is_a_map (h : Heap) (ann : MapRef) (md : AnnMap) (hne : md ≠ []) :
+    (addUserMetadata h ann md).2.1 = some h.cells.length := by
+  unfold addUserMetadata
+  have : md.isEmpty = false := by cases md <;> simp_all
+  simp [this, facts_merge_allocates_fresh_map, alloc_addr]
+
+/-! ### non-vacuity -/
+
+def exArt : Art := { mediaType := ['m'], digest := ['d'], size := 3, ann := [(['a'], ['1'])] }
+def exCall (r : Ref) (md : AnnMap) : Call := { ref := r, md := md, opts := .jws }
+def exInput (calls : List Call) : Input :=
+  { backend := "mock", art := exArt, repo := { aliased := true, plainByDigest := false, anyDigest := true, push := .ok },
+    signer := { kind := .ok, thumbs := [['a', 'b']], time := 951782400, pluginAnn := [] }, pluginConfig := [], calls := calls }
+
+/-- signing the same tag three times with the same metadata succeeds three times -/
+example : ((run (exInput (List.replicate 3 (exCall .fullTag [(['b'], ['2'])])))).calls.map (fun o => (o.ok, o.sigCount))) =
+    [(true, 1), (true, 2), (true, 3)] := by decide
+
+example : ((run (exInput [exCall .fullTag [(['b'], ['2'])]])).calls.map (·.signed)) =
+    [some { mediaType := ['m'], digest := ['d'], size := 3, ann := [(['a'], ['1']), (['b'], ['2'])] }] := by decide
+
+example : ((run (exInput [exCall .digest []])).calls.map (·.pushAnn)) =
+    [some [(Facts.c11ThumbprintKey, "[\"ab\"]".toList), (Facts.c11CreatedKey, "2000-02-29T00:00:00Z".toList)]] := by decide
+
+/-- a collision, a reserved key and a digest mismatch are refused, and a later good call is unaffected -/
+example : ((run (exInput [exCall .tag [(['a'], ['2'])], exCall .tag [("io.cncf.notary.x".toList, [])],
+      exCall .fullOtherDigest [], exCall .tag [(['b'], ['2'])]])).calls.map (fun o => (o.ok, o.sigCount))) =
+    [(false, 0), (false, 0), (false, 0), (true, 1)] := by decide
+
+example : Holds (exInput [exCall .tag [(['b'], ['2'])]]) (run (exInput [exCall .tag [(['b'], ['2'])]])) = true := by decide
+
+/-- `Holds` rejects the behaviour of the code before 303ff26: metadata written into the repository's map
+(subject carries it, repository view changed), second call refused -/
+example : Holds (exInput [exCall .tag [(['b'], ['2'])], exCall .tag [(['b'], ['2'])]])
+    { calls := [
+      { ok := true, resolveArg := some .tag,
+        signed := some { mediaType := ['m'], digest := ['d'], size := 3, ann := [(['a'], ['1']), (['b'], ['2'])] },
+        subject := some { mediaType := ['m'], digest := ['d'], size := 3, ann := [(['a'], ['1']), (['b'], ['2'])] },
+        pushAnn := some (expectedPushAnn (exInput [])), returned := .resolved,
+        repoViewSame := false, handedSame := false, optsSame := true, sigCount := 1 },
+      { ok := false, resolveArg := some .tag, signed := none, subject := none, pushAnn := none, returned := .zero,
+        repoViewSame := false, handedSame := false, optsSame := true, sigCount := 1 }] } = false := by decide
+
+/-- ... and names the clauses -/
+example : (clauses (exInput [exCall .tag [(['b'], ['2'])]])
+    { calls := [
+      { ok := true, resolveArg := some .tag,
+        signed := some { mediaType := ['m'], digest := ['d'], size := 3, ann := [(['a'], ['1']), (['b'], ['2'])] },
+        subject := some { mediaType := ['m'], digest := ['d'], size := 3, ann := [(['a'], ['1']), (['b'], ['2'])] },
+        pushAnn := some (expectedPushAnn (exInput [])), returned := .resolved,
+        repoViewSame := false, handedSame := true, optsSame := true, sigCount := 1 }] }).failed =
+    ["subject_is_resolved_descriptor", "frame"] := by decide
 
 end NotationModel.C11
